@@ -40,8 +40,8 @@ theorem putU_error (cfg : Cfg) (rights : Rights) (user : String) (s : Store) (p 
       · simp
       · exact putDispatch_error cfg rights user p body _ _ im raw nm imc
 
-theorem deleteU_error (cfg : Cfg) (rights : Rights) (user : String) (s : Store) (p im) :
-    (deleteU cfg rights user s p im).1.status ≥ 400 → (deleteU cfg rights user s p im).2 = none := by
+theorem deleteU_error (cfg : Cfg) (rights : Rights) (user : String) (s : Store) (p im imc) :
+    (deleteU cfg rights user s p im imc).1.status ≥ 400 → (deleteU cfg rights user s p im imc).2 = none := by
   unfold deleteU; simp only []; repeat' split
   all_goals simp [forbiddenNA]
 
@@ -81,7 +81,7 @@ theorem handleU_error (cfg : Cfg) (rights : Rights) (user : String) (s : Store) 
   | mkcol p tag props bad => exact mkcolU_error cfg rights user s p tag props bad
   | mkcalendar p props bad => exact mkcalendarU_error cfg rights user s p props bad
   | put p body im raw nm imc => exact putU_error cfg rights user s p body im raw nm imc
-  | delete p im => exact deleteU_error cfg rights user s p im
+  | delete p im imc => exact deleteU_error cfg rights user s p im imc
   | move src dst ov => exact moveU_error cfg rights user s src dst ov
   | proppatch p set rm st bad => exact proppatchU_error cfg rights user s p set rm st bad
   | get p => intro _; exact getU_readonly cfg rights user s p
